@@ -271,6 +271,11 @@ def consumed : Op → Res → Bytes
   | .recvUntil d _ w, .ok bs => if w then bs else bs ++ d
   | _, _ => []
 
+/-- the bytes handed to the caller by a history of attempts (`runAttempts`) -/
+def handedOver : List Op → List (Res × St) → Bytes
+  | op :: ops, (r, _) :: recs => consumed op r ++ handedOver ops recs
+  | _, _ => []
+
 /-- the stream as seen from a state: buffered bytes, then undelivered bytes -/
 def St.view (st : St) : Bytes := st.rbuf ++ pending st.script
 
